@@ -218,6 +218,9 @@ func kernelValidationLines(c *Ctx, rng *rand.Rand, tab map[string]int, tier stri
 	if tier == "thorough" {
 		nCases, nProbes = 400, 24
 	}
+	if tier == "tsync-only" {
+		nCases, nProbes = 1, 1
+	}
 	type probe struct {
 		Name string    `json:"name"`
 		X32  bool      `json:"x32"`
